@@ -416,6 +416,47 @@ func (x *c16) opPipe() {
 	x.rec.FP("pipe")
 }
 
+// opLongLived: a bound pair stays in use for longer than an allocation lifetime (the owner keeps
+// its allocation refreshed): bytes still pass both ways, nothing times the pair out.
+func (x *c16) opLongLived() {
+	mc := x.liveConn(func(c *mConn) bool { return c.bound })
+	if mc == nil {
+		return
+	}
+	if r := x.m.Refresh(mc.owner, sim.U32(3599)); r == nil || r.Class != wire.ClassSuccess {
+		return
+	}
+	for _, c := range x.w.Clients {
+		if c != mc.owner && !c.Closed {
+			if a, st := x.m.Alloc(c); a != nil && st == sim.Live {
+				x.m.Refresh(c, sim.U32(3599))
+			}
+		}
+	}
+	// unbound connections die at their 30 s deadline meanwhile
+	for _, c := range x.conns {
+		if !c.bound && !c.dead {
+			c.dead = true
+			_ = c.peerEnd.Close()
+		}
+	}
+	x.w.Sleep(pick(x.rng, []time.Duration{9*time.Minute + 58*time.Second, 10*time.Minute + 2*time.Second, 21 * time.Minute}))
+	x.m.Audit(nil)
+	msg := []byte(fmt.Sprintf("still-here-%d", x.rng.Int63()))
+	_, _ = mc.data.Write(msg)
+	mc.c2p = append(mc.c2p, msg...)
+	_, _ = mc.peerEnd.Write(msg)
+	mc.p2c = append(mc.p2c, msg...)
+	x.w.Settle()
+	if mc.peerEnd.PeerClosedWrite() || mc.data.PeerClosedWrite() {
+		x.rec.Violate("pipe-close", "idle-timeout", "bound connection %d was closed by the server although neither side closed it (in use for more than an allocation lifetime, allocation refreshed)", mc.id)
+
+		return
+	}
+	x.checkPipe(mc)
+	x.rec.FP("pipe/long-lived")
+}
+
 func (x *c16) checkPipe(mc *mConn) {
 	got, _ := mc.peerEnd.ReadAvailable()
 	if !bytes.Equal(got, mc.c2p) {
@@ -704,11 +745,27 @@ func runC16(t *testing.T, rng *rand.Rand, rec *sim.Rec, tier string, caseNo int)
 		case 9:
 			x.opPipe()
 		case 10:
-			x.opClose()
-		case 11:
 			if rng.Intn(3) == 0 {
-				x.opTeardown(c)
+				// a peer that refused connections so far starts listening: an earlier failed Connect
+				// (447) to it leaves nothing behind, the next Connect reaches it
+				for _, p := range x.peers {
+					if p.l == nil {
+						if l, err := w.Net.ListenTCP(p.addr.IP, p.addr.Port); err == nil {
+							p.l = l
+							rec.FP("peer-comes-up")
+						}
+					}
+				}
 			} else {
+				x.opClose()
+			}
+		case 11:
+			switch rng.Intn(4) {
+			case 0:
+				x.opTeardown(c)
+			case 1:
+				x.opLongLived()
+			default:
 				x.opDeadline()
 			}
 		}
